@@ -528,6 +528,10 @@ def compare_ie(ctx, case, out, mod):
     run = mod["run"]
     if "error" in run:
         return f"model run error {run['error']}"
+    if set(out["modes"]) != {mod["opmode"]}:
+        return f"operator applied in modes {sorted(set(out['modes']))}, model: {mod['opmode']}"
+    if not set(out["apmodes"]) <= {mod["apmode"]}:
+        return f"approximation applied in modes {sorted(set(out['apmodes']))}, model: {mod['apmode']}"
     cj = case["ctrl"]
     # controller verdict sequence (decisions outside the margin)
     for k, r in enumerate(out["recs"]):
@@ -597,7 +601,7 @@ def run(ctx):
     cases += [gen.cg_case(rng, nmax=8) for _ in range(ctx.n(150, 1200))]
     if not ctx.quick:
         cases += [gen.cg_case(rng, nmax=40, nmin=9) for _ in range(60)]
-    cases += gen.ie_cases(rng, ctx.n(60, 500))
+    cases += gen.ie_cases(rng, ctx.n(160, 1200))
     _dispatch(ctx, cases)
 
 
